@@ -208,10 +208,21 @@ def check_trace(events, arr, cfg, job):
     cur = None
     in_liq_orders = []
     n_closed = 0
+    liq_done = {}          # symbol -> the liquidation check of the minute / chunk in progress has already run
     for e in events:
         k = e['k']
         if k == 'trade_closed':
             n_closed += 1
+        # the check belongs AFTER the matching of the minute / chunk: no order of that symbol is filled in the same minute /
+        # chunk once its liquidation check has run (the forced close itself is filled inside the check; MARKET orders of the
+        # strategy step that follows are not resting orders)
+        if k in ('match_enter', 'mmatch_enter'):
+            liq_done[e.get('symbol')] = False
+        elif k == 'exec_ret' and cur is None and e.get('status') == 'EXECUTED' and e.get('type') != 'MARKET' \
+                and liq_done.get(e.get('symbol')):
+            v('order_filled_after_the_liquidation_check_of_its_minute',
+              f'{e.get("type")} order of {e.get("symbol")} executed at {e.get("executed_at")} after the liquidation check of the '
+              f'same minute / chunk had already run', order=e.get('o'))
         if k == 'liq_enter':
             cur = {'enter': e, 'submits': [], 'execs': []}
         elif cur is not None and k == 'submit':
@@ -220,6 +231,8 @@ def check_trace(events, arr, cfg, job):
             cur['execs'].append(e)
         elif k == 'liq_exit' and cur is not None:
             ent, ex = cur['enter'], e
+            liq_done[e.get('symbol')] = True
+            c('liquidation_checks_followed_for_later_fills')
             pos = ent['pos'] or {}
             qty = pos.get('qty') or 0
             forced = [s for s in cur['submits'] if s.get('in_liq')]
